@@ -21,6 +21,7 @@ pub mod c15;
 pub mod c16;
 pub mod c17;
 pub mod c18;
+pub mod c19;
 
 pub fn dispatch(args: &Args) -> Option<Report> {
     Some(match args.prop.as_str() {
@@ -42,6 +43,7 @@ pub fn dispatch(args: &Args) -> Option<Report> {
         "c16" => c16::run(args),
         "c17" => c17::run(args),
         "c18" => c18::run(args),
+        "c19" => c19::run(args),
         _ => return None,
     })
 }
